@@ -221,7 +221,7 @@ func genTuples(rng *RNG, ncols int) [][]gval {
 	}
 	switch fam := rng.Intn(6); fam {
 	case 0: // separator shift between (or inside) columns
-		sep := []string{"|", "\x1f", ",", ":", "|6:nil||"}[rng.Intn(5)]
+		sep := []string{"|", "|", "\x1f", ",", ":", "|6:nil||", "|string|", "|8:string|", "|nil||string|"}[rng.Intn(9)]
 		x, y, z := rng.Pick([]string{"a", "x", "", "1"}), rng.Pick([]string{"b", "y", "", "2"}), rng.Pick([]string{"c", "z", ""})
 		if ncols >= 2 {
 			pool = append(pool, pad([]gval{S(x + sep + y), S(z)}), pad([]gval{S(x), S(y + sep + z)}), pad([]gval{S(x), S(y)}))
@@ -379,12 +379,17 @@ func runSQL(sql string, rows []grow, extra []map[string]any, ncols int, done fun
 	for _, m := range extra {
 		s.Emit(m)
 	}
+	maxWait = waitLimit(maxWait)
 	deadline := time.Now().Add(maxWait)
 	for {
 		mu.Lock()
 		ok := done(out)
 		mu.Unlock()
-		if ok || time.Now().After(deadline) {
+		if ok {
+			break
+		}
+		if time.Now().After(deadline) {
+			chargeWait(maxWait)
 			break
 		}
 		time.Sleep(200 * time.Microsecond)
@@ -395,6 +400,32 @@ func runSQL(sql string, rows []grow, extra []map[string]any, ncols int, done fun
 }
 
 const sentinelBase = int64(1000000)
+
+// waitBudget bounds the total time a run may spend waiting for output that never comes (a broken
+// implementation must produce a verdict, not a hang): every wait that runs into its timeout is
+// charged here, and once the budget is used up waits are cut to 10 ms.
+var (
+	waitMu     sync.Mutex
+	waitBudget = 8 * time.Second
+)
+
+func waitLimit(want time.Duration) time.Duration {
+	waitMu.Lock()
+	defer waitMu.Unlock()
+	if waitBudget <= 0 {
+		return 10 * time.Millisecond
+	}
+	if want > waitBudget {
+		return waitBudget
+	}
+	return want
+}
+
+func chargeWait(d time.Duration) {
+	waitMu.Lock()
+	waitBudget -= d
+	waitMu.Unlock()
+}
 
 // sentinel rows: n rows of a key no generated tuple has; their result marks the end of the run
 // (single consumer goroutines, FIFO channels). Only for ncols >= 1.
@@ -597,12 +628,17 @@ func sessionAPICase(rng *RNG) (string, error) {
 	for _, r := range rows {
 		sw.Add(r.toMap())
 	}
-	deadline := time.Now().Add(3 * time.Second)
+	lim := waitLimit(3 * time.Second)
+	deadline := time.Now().Add(lim)
 	for {
 		mu.Lock()
 		g := got
 		mu.Unlock()
-		if g >= len(rows) || time.Now().After(deadline) {
+		if g >= len(rows) {
+			break
+		}
+		if time.Now().After(deadline) {
+			chargeWait(lim)
 			break
 		}
 		time.Sleep(5 * time.Millisecond)
@@ -717,9 +753,8 @@ func runC04(tier string, seed uint64, o *Out) error {
 	if tier == "thorough" {
 		nEnc, nAgg, nGlb, nSes, nSQL = 3000, 30000, 3000, 200, 80
 	}
-	if err := encoderCases(rng, o, nEnc); err != nil {
-		return err
-	}
+	// (the encoder lines come last: the driver prints only the first 200 bad lines, and a failing
+	// input is worth more than a byte difference)
 	// corpus: the F2 witnesses, through SQL
 	S := func(s string) gval { return gval{kind: 's', s: s} }
 	for _, w := range [][2][]gval{
@@ -795,5 +830,5 @@ func runC04(tier string, seed uint64, o *Out) error {
 		o.Line("%s", l)
 		o.Count("time window SQL")
 	}
-	return nil
+	return encoderCases(rng, o, nEnc)
 }
